@@ -701,6 +701,78 @@ fn c06_judge(inp: &C06Input, which: &str, entry: Entry, sched_name: &str, script
     }
 }
 
+/// C06 (2): parse through one interface, read the document through the other
+fn c06_cross(inp: &C06Input, script: &[Step], async_parse: bool, sched: &str, st: &mut Stats) {
+    let n = inp.head_len;
+    let tail = inp.data.len() - n;
+    let want = &inp.data[n..];
+    st.evaluations += 1;
+    st.traces += 1;
+    st.nontrivial.insert(fnv(format!("x:{}:{}:{}", inp.name, sched, async_parse).as_bytes()));
+    let mon = Monitor::new();
+    let src = ScriptSource::new(inp.data.clone(), script.to_vec(), mon.clone());
+    let mon2 = mon.clone();
+    let r = std::panic::catch_unwind(std::panic::AssertUnwindSafe(move || -> Result<Vec<u8>, String> {
+        if async_parse {
+            let fut = async move { AsyncIppParser::new(AsyncIppReader::new(src)).parse().await };
+            let parsed = match run_manual(fut, &mon2, 4 * n + 64, None) {
+                Run::Done { value, .. } => value.map_err(|e| format!("parse error {:?}", e))?,
+                other => return Err(format!("parse did not finish: {}", match other { Run::LostWakeup { polls } => format!("lost wake-up after {} polls", polls), _ => "horizon".into() })),
+            };
+            let mut payload = parsed.into_payload();
+            let mut out = vec![];
+            let mut buf = [0u8; 4096];
+            let mut calls = 0;
+            loop {
+                calls += 1;
+                if calls > 2 * tail + 1000 {
+                    return Err("no end-of-stream".into());
+                }
+                match Read::read(&mut payload, &mut buf) {
+                    Ok(0) => break,
+                    Ok(k) => out.extend_from_slice(&buf[..k]),
+                    Err(e) if e.kind() == ErrorKind::Interrupted => continue,
+                    Err(e) => return Err(format!("payload read error {:?} through std::io::Read", e.kind())),
+                }
+            }
+            Ok(out)
+        } else {
+            let parsed = IppParser::new(IppReader::new(src)).parse().map_err(|e| format!("parse error {:?}", e))?;
+            let mut payload = parsed.into_payload();
+            let fut = async move {
+                let mut out = vec![];
+                match futures_util::io::AsyncReadExt::read_to_end(&mut payload, &mut out).await {
+                    Ok(_) => Ok(out),
+                    Err(e) => Err(format!("payload read error {:?} through AsyncRead", e.kind())),
+                }
+            };
+            match run_manual(fut, &mon2, 4 * tail + 1000, None) {
+                Run::Done { value, .. } => value,
+                Run::LostWakeup { polls } => Err(format!("lost wake-up after {} polls", polls)),
+                Run::Horizon { polls } => Err(format!("not finished after {} polls", polls)),
+            }
+        }
+    }));
+    st.transitions += mon.calls.load(SeqCst) as u64;
+    let which = if async_parse { "async-parsed-read-blocking" } else { "blocking-parsed-read-async" };
+    let case = || json!({"input": inp.name, "head_len": n, "payload_len": tail, "script": script_json(script), "mode": which, "bytes": if inp.data.len() <= 600 { json!(hex(&inp.data)) } else { json!({"head": hex(&inp.data[..inp.head_len.min(300)]), "len": inp.data.len()}) }});
+    match r {
+        Ok(Ok(out)) if out == want => st.outcome("document-identical"),
+        Ok(Ok(out)) => {
+            st.outcome("document-differs");
+            st.violate(format!("{}:document-differs", which), format!("input {} schedule {}: {} payload bytes instead of {}", inp.name, sched, out.len(), tail), case());
+        }
+        Ok(Err(e)) => {
+            st.outcome("document-lost");
+            st.violate(format!("{}:document-lost", which), format!("input {} schedule {}: {}", inp.name, sched, e), case());
+        }
+        Err(p) => {
+            st.outcome("panic");
+            st.violate(format!("{}:panic", which), format!("input {} schedule {}: panic {}", inp.name, sched, panic_text(p)), case());
+        }
+    }
+}
+
 fn c06_schedules(n: usize, two_cut_limit: usize, one_cut_limit: usize, f: &mut dyn FnMut(Vec<usize>, String)) {
     f(vec![n], "whole".into());
     let mut sizes: Vec<usize> = if n <= 8192 { (1..=n.min(16)).collect() } else { vec![1, 7] };
@@ -812,7 +884,10 @@ pub fn run_c06(ctx: &Ctx) -> ! {
         let entry = if j["entry"].as_str() == Some("Parts") { Entry::Parts } else { Entry::Parse };
         let mut st = Stats::new();
         st.evaluations = 1;
-        if j["parser"].as_str() == Some("async") {
+        if let Some(mode) = j["mode"].as_str() {
+            st.evaluations = 0;
+            c06_cross(&inp, &script, mode == "async-parsed-read-blocking", "replay", &mut st);
+        } else if j["parser"].as_str() == Some("async") {
             if let (AsyncRun::Done(obs, _), _) = run_async(&inp.data, script.clone(), entry, None) {
                 c06_judge(&inp, "async", entry, "replay", &script, &obs, &mut st);
             }
@@ -902,7 +977,59 @@ pub fn run_c06(ctx: &Ctx) -> ! {
     for p in parts {
         s.merge(p);
     }
-    rep.absorb(s);
+    rep.section("fragmentation-x-interrupts-x-readiness", s);
+
+    // (2) the document of a parsed message, taken as IppPayload and read through the OTHER interface than the one
+    // it was parsed with (async-parsed -> std::io::Read; blocking-parsed -> AsyncRead), while the source keeps
+    // fragmenting and answering not-ready (with an immediate wake-up: the blocking side has no executor that could
+    // deliver a deferred one) after the end-of-attributes tag
+    let cross: Vec<&C06Input> = inputs.iter().filter(|i| i.data.len() > i.head_len && i.data.len() <= 80_000 && matches!(i.reference, Outcome::Ok(_))).collect();
+    let parts = par_slice(ctx.threads, &cross, Stats::new, |st, _, inp| {
+        let n = inp.head_len;
+        let tail = inp.data.len() - n;
+        for sched in 0..4u8 {
+            for async_parse in [true, false] {
+                let gap = |v: &mut Vec<Step>| v.push(if async_parse { Step::Pending { deferred: false } } else { Step::Interrupted });
+                let mut script: Vec<Step> = vec![];
+                match sched {
+                    0 => {}
+                    1 => {
+                        script.push(Step::Chunk(n));
+                        gap(&mut script);
+                        script.push(Step::Chunk(tail));
+                    }
+                    2 => {
+                        script.push(Step::Chunk(n));
+                        let mut left = tail;
+                        let mut k = 0;
+                        while left > 0 && k < 64 {
+                            gap(&mut script);
+                            let c = 3.min(left);
+                            script.push(Step::Chunk(c));
+                            left -= c;
+                            k += 1;
+                        }
+                        gap(&mut script);
+                    }
+                    _ => {
+                        script.push(Step::Chunk(n - 1));
+                        gap(&mut script);
+                        script.push(Step::Chunk(1));
+                        gap(&mut script);
+                        gap(&mut script);
+                        script.push(Step::Chunk(1));
+                        gap(&mut script);
+                    }
+                }
+                c06_cross(inp, &script, async_parse, &format!("{}", sched), st);
+            }
+        }
+    });
+    let mut s = Stats::new();
+    for p in parts {
+        s.merge(p);
+    }
+    rep.section("payload-through-the-other-interface", s);
     rep.set("inputs", json!(inputs.len()));
     rep.set("full_composition_limit_bytes", json!(limit));
     rep.finish()
